@@ -726,7 +726,17 @@ pub fn issue_op(c: &mut Commands, op: Op, cmd: CmdId, top: bool, rm: Option<&mut
             c.queue(marker(cmd));
             // odd actor ids of the ordinary variant go through the convenience wrappers `on_revokable` / `on_persistent`
             // (spawn + register in one call), everything else through spawn_system_command + `with`
-            if new_id % 2 == 1 && variant == Variant::Plain && mode == Mode::Revokable
+            if world_route && variant == Variant::Plain && mode == Mode::Persistent
+            {
+                // spawned *and* registered when the command is applied (World::react + on_persistent): the entity id is
+                // allocated then, possibly re-using the index of an entity despawned earlier in the same run
+                with_ctx(|x| x.actors.push(ActorRt{ entity: Entity::PLACEHOLDER, variant, runs: 0 }));
+                c.queue(move |w: &mut World| {
+                    let sc = w.react(|rc| rc.on_persistent(bundle, plain_actor(new_id, false, true, vec![])));
+                    with_ctx(|x| { x.names.insert(*sc, Name::Actor(new_id)); x.actors[new_id as usize].entity = *sc; });
+                });
+            }
+            else if new_id % 2 == 1 && variant == Variant::Plain && mode == Mode::Revokable
             {
                 let tok = c.react().on_revokable(bundle, plain_actor(new_id, false, true, vec![]));
                 let e = *SystemCommand::from(tok.clone());
